@@ -192,7 +192,7 @@ def build_harness(name="verifh", moddir=None, pkg="./cmd/verifh", goenv=None, go
     return rc == 0, out, binp
 
 
-INSTRUMENTED = ["localsubscriber.go", "local.go", "bolt.go", "subscriberlist.go"]
+INSTRUMENTED = ["localsubscriber.go", "local.go", "bolt.go"]
 
 
 def build_sched_harness():
@@ -211,6 +211,15 @@ def build_sched_harness():
     binp = os.path.join(WORK, "verifs")
     rc, out, _ = run(["go", "build", "-tags", "verif", "-overlay", os.path.join(ov, "overlay.json"), "-o", binp, "./cmd/verifs"],
                      cwd=HARNESS, env=GOENV, timeout=1500)
+    return rc == 0, out, binp
+
+
+def build_race_harness():
+    os.makedirs(WORK, exist_ok=True)
+    binp = os.path.join(WORK, "verifr")
+    with open(os.path.join(HARNESS, "go.sum"), "w") as f:
+        f.write(open(os.path.join(REPO, "go.sum")).read())
+    rc, out, _ = run(["go", "build", "-race", "-o", binp, "./cmd/verifr"], cwd=HARNESS, env=GOENV, timeout=1500)
     return rc == 0, out, binp
 
 
